@@ -25,7 +25,7 @@ from .. import bus, core, cover, faults, grospec
 
 LEVEL = 'fault_enumeration'
 JOBS = {'quick': 4, 'thorough': 16}
-REQUIRED_MONITORS = ('crash_image_read', 'prefix_read', 'inprogress_prefix_read', 'real_kill_crosscheck')
+REQUIRED_MONITORS = ('other_entry_points', 'crash_image_read', 'prefix_read', 'inprogress_prefix_read', 'real_kill_crosscheck')
 REQUIRED_CLASSES = ('buffering:default', 'buffering:line', 'buffering:flush-per-write', 'buffering:tiny-13',
                     'count:declared', 'count:backfilled', 'vel:yes', 'vel:no', 'crash:inside-close',
                     'crash:between-records', 'crash:mid-record', 'prefix:shipped', 'prefix:generated',
@@ -103,6 +103,30 @@ def read_image(path):
         return False, type(exc).__name__
 
 
+def read_image_generic(path):
+    """The same file through the other two entry points: open_coordinate_file (whatever parser is registered for the
+    extension) and SystemGro.  Returns the list of entry points that accepted it."""
+    from gaddlemaps.parsers import open_coordinate_file
+    from gaddlemaps.components import SystemGro
+    accepted = []
+    try:
+        f = open_coordinate_file(path)
+        try:
+            f.readlines()
+        finally:
+            f.close()
+        accepted.append('open_coordinate_file')
+    except Exception:  # noqa
+        pass
+    try:
+        s = SystemGro(path)
+        sum(len(r) for r in s)
+        accepted.append('SystemGro')
+    except Exception:  # noqa
+        pass
+    return accepted
+
+
 def box_start_of(complete):
     body = complete[:-1] if complete.endswith(b'\n') else complete
     return body.rfind(b'\n') + 1
@@ -117,6 +141,12 @@ def judge_image(ctx, image, complete, complete_recs, path, where, monitor):
     ctx.count('evaluations')
     if not ok:
         ctx.count('rejected:' + out)
+        if monitor == 'crash_image_read' and (complete is None or len(image) <= box_start_of(complete)):
+            # what GroFile refuses must be refused through the other entry points as well
+            ctx.monitor('other_entry_points')
+            for who in read_image_generic(path):
+                ctx.violation(f'accepted-truncation-before-box-line:{who}', f'{who} accepts a partial file that GroFile refuses ({where})',
+                              witness=dict(where, image_len=len(image), image_tail=image[-200:].decode(errors='replace')))
         return False
     is_prefix = complete is not None and complete.startswith(image)
     bstart = box_start_of(complete) if complete is not None else None
@@ -256,6 +286,14 @@ def sweep_prefixes(ctx, complete, lo, hi, label, scratch):
             ctx.violation('accepted-truncation-with-different-records', f'{label} truncated to {k} bytes returns other records', witness=w)
         else:
             ctx.hit('accepted:inside-box-line')
+    # the other entry points on the truncations right at the start of the box line (all records complete, nothing after)
+    for k in range(max(lo, bstart - 2), min(hi, bstart + 1)):
+        with open(scratch, 'wb') as fh:
+            fh.write(complete[:k])
+        ctx.monitor('other_entry_points')
+        for who in read_image_generic(scratch):
+            ctx.violation(f'accepted-truncation-before-box-line:{who}', f'{label} truncated to {k} bytes (box line starts at {bstart}) is accepted by {who}',
+                          witness={'file': label, 'truncated_to': k, 'box_line_start': bstart})
     _spent['sweeps'] += time.time() - t0
     ctx.extra.setdefault('accepted_prefixes', {})
     if accepted:
